@@ -283,6 +283,15 @@ def deferred_calls(path: Path, name: Optional[str] = None) -> List[Tuple[Event, 
     return out
 
 
+def late_bound(loop: Event, body: Path) -> Tuple[List[Event], List[str]]:
+    """closures created (not applied) in one pass of `loop`: (their note events, the names assigned by
+    the loop that they read when they finally run -- i.e. late-bound loop variables)"""
+    notes = [e for e in body.walk_events(True) if e.kind == "note" and e.data.get("what") == "deferred"]
+    names = {n.id for n in ast.walk(loop.node) if isinstance(n, ast.Name) and isinstance(n.ctx, ast.Store)} if loop.node is not None else set()
+    captured = sorted({v for n in notes for v in n.data.get("free", []) if v in names})
+    return notes, captured
+
+
 def stores(path: Path, attr: Optional[str] = None, into_loops: bool = True) -> List[Event]:
     out = []
     for e in path.walk_events(into_loops):
